@@ -83,7 +83,8 @@ def units(tier):
 def meta(tier):
     q = tier == "quick"
     return dict(bounds=dict(statements=len(corpus()), split_points="every character position inside literals; token boundaries and token interiors" + (" (6 spread per statement)" if q else " (all)"),
-                            variants=["plain", "trailing comment", "blank line between parts", "comment line between parts", "both"],
+                            variants=["plain", "trailing comment", "blank line between parts", "comment line between parts", "both", "';' after", "';' after + comment"],
+                            one_line="every statement on ONE physical line, every hole symbolic in turn: alone, with trailing comment, followed by '; z = 3', preceded by 'z = 3 ;' (label / construct name on the second statement)",
                             symbolic="comment text (2 printable chars) or one lexeme hole of the statement (default length)",
                             putback_ops=6 if q else 8, streams=len(STREAMS)),
                 assumptions=["free form; a split inside a character context uses a leading '&' and carries no trailing comment (standard 3.3.1.3.1)",
